@@ -71,24 +71,21 @@ def hasDataTag (dataTypes : List String) (o : Obj) : Bool :=
 /-- is this link a tree child in the sense of `_populate_tree`: a *group* with a data group type tag -/
 def isDataKid (dataTypes : List String) (o : Obj) : Bool := o.isGroup && hasDataTag dataTypes o
 
-/-- `_overwrite_single_node(group, data)` seen from the parent group: the old group is parked under
-    `_tmp_<name>`, the node is written anew, the old group's tree children are linked into it and
-    the parked group is deleted.  (In place of "append then delete" the entry is replaced where it
-    stands: link order is not observable, H5.) -/
+/-- `_overwrite_single_node(group, data)` seen from the parent group: the old group is parked under a
+    scratch name that no sibling uses (`_tmp_<name>`, `_tmp__tmp_<name>`, …), the node is written anew, the
+    old group's tree children are linked into it and the parked group is deleted.  The scratch name is not
+    observable afterwards, so the entry is replaced where it stands (link order is not observable, H5). -/
 def overwriteSingleNode (dataTypes : List String) (parent : Obj) (i : NodeInfo) : R Obj :=
   match alookup i.name parent.kids with
   | none => throw (.error ("no such group: " ++ i.name))
   | some old =>
-    if (alookup ("_tmp_" ++ i.name) parent.kids).isSome then
-      throw (.error "move: destination exists")
+    -- links copied only for keys that have the tag attribute and a data group type;
+    -- `h5py` raises if the key already exists in the new group (a body name)
+    let links := old.kids.filter (fun kv => hasDataTag dataTypes kv.2)
+    if links.any (fun kv => (alookup kv.1 i.body).isSome) then
+      throw (.error "link: name already exists")
     else
-      -- links copied only for keys that have the tag attribute and a data group type;
-      -- `h5py` raises if the key already exists in the new group (a body name)
-      let links := old.kids.filter (fun kv => hasDataTag dataTypes kv.2)
-      if links.any (fun kv => (alookup kv.1 i.body).isSome) then
-        throw (.error "link: name already exists")
-      else
-        pure (parent.setKids (areplace i.name (.group (nodeAttrs i) (i.body ++ links)) parent.kids))
+      pure (parent.setKids (areplace i.name (.group (nodeAttrs i) (i.body ++ links)) parent.kids))
 
 mutual
 /-- one iteration of the loop of `_append_branch(group, data, appendover)`, for the child `d` of `data`;
